@@ -61,7 +61,7 @@ def lexical_forms(c, quick, seed, clsname=None):
             out.append((f, f))
     elif t in ("String", "NagString"):
         n = c.params
-        forms = ["a", "&amp;", "&lt;", "&gt;", "&nbsp;x", "&apos;", "&quot;", "a&amp;lt;b", "&amp;amp;", "&amp;gt;&amp;quot;", "é€", "x>y", "a  b", "0", "A&amp;B&lt;c&gt;\"'", "\u2019\u0160\u2122"]
+        forms = ["a", "&amp;", "&lt;", "&gt;", "&nbsp;x", "&apos;", "&quot;", "a&amp;lt;b", "&amp;amp;", "&amp;gt;&amp;quot;", "é€", "x>y", "a  b", "0", "A&amp;B&lt;c&gt;\"'", "\u2019\u0160\u2122", "CAF\u00c3\u00a9 \u00c2\u00a35"]
         for f in forms:
             v = R.unescape(f)
             if n is not None and len(v) > n:
@@ -167,6 +167,41 @@ def lexclass(c, label):
     return t
 
 
+def edit_and_convert_again(t, cls, clsname):
+    import io
+
+    from ofxtools.Parser import OFXTree
+
+    for c in S.children(cls):
+        if c.kind != "elem" or c.typ not in ("String", "NagString", "Integer", "Decimal"):
+            continue
+        forms = [f for _, f in lexical_forms(c, True, 0, clsname) if "&" not in f]
+        if len(forms) < 2:
+            continue
+        term = U.min_with(cls, c)
+        a, b = forms[0], forms[1]
+        tag = S.tag_of(c.name)
+        t.count("evaluations")
+        case = {"cls": clsname, "child": c.name, "text": b, "edit": True}
+        try:
+            tree = OFXTree()
+            tree.parse(io.BytesIO(wire.to_bytes(wire.doc(term, {(c.name,): a}), "xml")))
+            first = tree.convert()
+            leaf = next(e for e in tree.getroot().iter(tag))
+            leaf.text = b
+            second = tree.convert()
+        except Exception as e:
+            t.fail(f"C03|{clsname}.{c.name}|edit-the-tree-and-convert-again|raises-{type(e).__name__}", case, f"{type(e).__name__}: {str(e)[:200]}")
+            return
+        exp = R.read_value(c.typ, c.params, b)
+        got = getattr(second, c.name, None)
+        if S.norm_value(got) != exp or second is first:
+            t.fail(f"C03|{clsname}|edit-the-tree-and-convert-again|stale-model", case, f"<{tag}> changed from {a!r} to {b!r}: model holds {got!r}")
+        else:
+            t.outcome("edit-ok")
+        return
+
+
 def work(chunk):
     t = Tally()
     disturb_process()
@@ -192,6 +227,8 @@ def work(chunk):
                 forms = ("xml", "sgml", "sgml-1252") if any(ord(ch) > 127 for ch in text) else ("xml", "sgml")
                 run_doc(t, term, {path: text}, f"C03|{clsname}.{c.name}|{lexclass(c, label)}", case, forms=forms)
                 t.count("lexical-forms")
+        # an application may edit the parsed tree and convert again: the model follows the tree as it is now
+        edit_and_convert_again(t, cls, clsname)
         # the MAXS document: all children at once
         try:
             run_doc(t, U.MAXS(cls), None, f"C03|{clsname}|MAXS", {"cls": clsname, "child": None, "text": None}, forms=("xml", "sgml", "cdata"))
@@ -229,7 +266,7 @@ def run(ctx):
         "rule": "every class x every declared data element (and repeated element) x every lexical form of its type: Bool Y/N; Integer 0,7,-7,+7,007,-0,limit; "
         "Decimal 12 forms incl. comma separator, signs, bare separator sides; String 15 forms incl. each entity alone, doubly escaped entities, non-ASCII, the limit; "
         + ("OneOf first, last and every 7th token; " if ctx.quick else "OneOf every token; ") +
-        "DateTime/Time 3 plain notations + {full, offset-without-ms} x 10 offsets - in the smallest document containing the element, rendered as v2 XML and v1 SGML "
+        "DateTime/Time 3 plain notations + {full, offset-without-ms} x 10 offsets - in the smallest document containing the element, rendered as v2 XML and v1 SGML; per class one document converted, its tree edited in place, converted again; "
         "(end tags omitted) by the reference renderer; + the MAXS document of every class (also with every eligible data element CDATA-wrapped); distinct_nontrivial = (element, lexical form) pairs",
         "elements": tally.counts.get("elements", 0),
         "classes": tally.counts.get("classes", 0),
